@@ -3,11 +3,13 @@ from pyvc.api import contract
 _IN_RANGE = "any(l.start.line <= line_number and line_number <= l.end.line for l in r.locations)"
 contract("codemodder.file_context.FileContext.get_findings_for_location", props=["C06", "C19"],
          params={"self": "FileContext", "line_number": "int"}, returns="list[Finding]",
+         functional=True, reads=["results", "locations", "finding"],
          ensures=[("exactly the findings whose location range contains the line",
                    f"all(iff(f in result, self.results is not None and any(r.finding is not None and r.finding == f and {_IN_RANGE} for r in self.results)) for f in ANY('Finding'))"),
                   ("no results => no findings", "implies(not self.results, len(result) == 0)")])
 
 contract("codemodder.file_context.FileContext.get_all_findings", props=["C06", "C10"],
          params={"self": "FileContext"}, returns="list[Finding]",
+         functional=True, reads=["results", "finding"],
          ensures=[("exactly the findings of this file's results",
                    "all(iff(f in result, self.results is not None and any(r.finding is not None and r.finding == f for r in self.results)) for f in ANY('Finding'))")])
